@@ -457,6 +457,35 @@ def monoCheckGo (classes : List GDef) (tyOf : List GTy) : List GTy → List Def 
 def monoCheck (classes : List GDef) (tyOf : List GTy) (defs : List Def) : Bool :=
   monoCheckGo classes tyOf tyOf defs
 
+/-! ### Decidable forms of the remaining hypotheses, for a finite type table
+
+`cxOf` is the checker context the driver derives from the table; `cxOkCheck` / `nodupCheck` decide
+`CxOk` / `SigNodup` for it (`Lemmas/UsefulNorm.lean`), so that together with `rankCheck` and `swf`
+every hypothesis of `checker_match_decided` is checked by computation on each replayed case. -/
+
+/-- `variant_signature_incomplete_names`' view of the table: variants of the first instance of the class -/
+def cxOf (defs : List Def) : Cx := fun cls =>
+  match defs.find? (fun d => match d with | .enum c _ => c = cls | _ => false) with
+  | some (.enum _ vs) => vs.map (fun v => (v.1, v.2.length))
+  | _ => []
+
+
+def cxOkCheck (defs : List Def) : Bool :=
+  (List.range defs.length).all fun t =>
+    match sigOfTable defs t with
+    | .enum cls vs => decide (cxOf defs cls = vs.map (fun v => (v.1, v.2.length)))
+    | _ => true
+
+def nodupNatL : List Nat → Bool
+  | [] => true
+  | x :: xs => !xs.contains x && nodupNatL xs
+
+def nodupCheck (defs : List Def) : Bool :=
+  (List.range defs.length).all fun t =>
+    match sigOfTable defs t with
+    | .enum _ vs => nodupNatL (vs.map (·.1))
+    | _ => true
+
 /-! ## Source patterns and their normalisation (main_checker.rs:1082-1512)
 
 `check_matching_pattern` returns the checked pattern and the abstract node, and reports errors.
@@ -488,6 +517,9 @@ def fieldIndex (fs : List (Nat × Nat)) (name : Nat) : Option (Nat × Nat) :=   
     | [], _ => none
     | (n, t) :: rest, i => if n = name then some (i, t) else go rest (i + 1)
   go fs 0
+
+/-- the name id the protocol reserves for the enclosing function's parameter (the scrutinee `x`) -/
+def paramName : Nat := 0
 
 /-- bindings of a checked pattern: name ↦ type (`none` = `any`) -/
 abbrev Binds := List (Nat × Option Nat)
@@ -536,7 +568,9 @@ def sigAt (sig : Sig) : Option Nat → Def
 
 mutual
 def normalize (sig : Sig) (wildOnBad : Bool) : SPat → Option Nat → Norm
-  | .id name, ty => { pat := .wild, err := false, binds := [(name, ty)] }
+  | .id name, ty =>
+    -- an identifier that shadows the enclosing function's parameter: `NameAlreadyBound` (SSA pass)
+    { pat := .wild, err := decide (name = paramName), binds := [(name, ty)] }
   | .wild, _ => { pat := .wild, err := false }
   | .tuple ps, ty =>
     match sigAt sig ty with
@@ -624,6 +658,55 @@ def normAll (sig : Sig) (wildOnBad : Bool) : List SPat → Option Nat → NormL
     let r := normAll sig wildOnBad ps ty
     { pats := a.pat :: r.pats, err := a.err || r.err, panic := a.panic || r.panic,
       binds := [], each := a.binds :: r.each }
+end
+
+/-! ### Field visibility (main_checker.rs:1216-1218, 1292-1298; typing_context.rs:1072)
+
+A struct field is accessible in a pattern if it is public or the match sits inside the struct's own
+class (`is_public || nominal_type.id == current_class`).  A tuple pattern that reaches a
+non-accessible field reports `ElementMissing`, an object pattern that names one reports
+`CannotResolveMember`; the abstract node is unaffected.  `vis t` lists, per field of struct type
+`t`, whether it is accessible from the class containing the match; `visErr` says whether
+`check_matching_pattern` reports such an error (the driver ORs it into `err`). -/
+
+abbrev Vis := Nat → List Bool
+
+mutual
+def visErr (sig : Sig) (vis : Vis) : SPat → Nat → Bool
+  | .id _, _ => false
+  | .wild, _ => false
+  | .or ps, t => visErrAll sig vis ps t
+  | .tuple ps, t =>
+    match sig t with
+    | .struct fs => visErrTuple sig vis ps (fs.map (·.2)) (vis t)
+    | _ => false          -- not a struct: sub-patterns are checked against `any`, no field is reached
+  | .object names ps, t =>
+    match sig t with
+    | .struct fs => visErrObject sig vis fs (vis t) ps names
+    | _ => false
+  | .variant tag ps, t =>
+    match sig t with
+    | .enum _ vs =>
+      (match findVariant vs tag with
+        | some tys => visErrTuple sig vis ps tys []      -- variant fields have no visibility
+        | none => false)
+    | _ => false
+def visErrAll (sig : Sig) (vis : Vis) : List SPat → Nat → Bool
+  | [], _ => false
+  | p :: ps, t => visErr sig vis p t || visErrAll sig vis ps t
+def visErrTuple (sig : Sig) (vis : Vis) : List SPat → List Nat → List Bool → Bool
+  | [], _, _ => false
+  | _ :: _, [], _ => false    -- surplus elements are checked against `any`
+  | p :: ps, t :: ts, flags =>
+    !(flags.headD true) || visErr sig vis p t || visErrTuple sig vis ps ts flags.tail
+def visErrObject (sig : Sig) (vis : Vis) (fs : List (Nat × Nat)) (flags : List Bool) :
+    List SPat → List Nat → Bool
+  | [], _ => false
+  | _ :: _, [] => false
+  | p :: ps, name :: names =>
+    (match fieldIndex fs name with
+      | some (i, t) => !(flags.getD i true) || visErr sig vis p t
+      | none => false) || visErrObject sig vis fs flags ps names
 end
 
 /-! ## Source-level matching (the specification the normalisation must preserve)
